@@ -133,32 +133,32 @@ impl AddSpecImpl<F> for F {
     open spec fn add_req(self, rhs: F) -> bool { true }
     open spec fn add_spec(self, rhs: F) -> F { F { v: Ghost(self.r() + rhs.r()) } }
 }
-impl core::ops::Add<F> for F { type Output = F; fn add(self, rhs: F) -> F { F { v: Ghost(self.r() + rhs.r()) } } }
+impl core::ops::Add<F> for F { type Output = F; #[verifier::external_body] fn add(self, rhs: F) -> F { F { v: Ghost(self.r() + rhs.r()) } } }
 impl SubSpecImpl<F> for F {
     open spec fn obeys_sub_spec() -> bool { true }
     open spec fn sub_req(self, rhs: F) -> bool { true }
     open spec fn sub_spec(self, rhs: F) -> F { F { v: Ghost(self.r() - rhs.r()) } }
 }
-impl core::ops::Sub<F> for F { type Output = F; fn sub(self, rhs: F) -> F { F { v: Ghost(self.r() - rhs.r()) } } }
+impl core::ops::Sub<F> for F { type Output = F; #[verifier::external_body] fn sub(self, rhs: F) -> F { F { v: Ghost(self.r() - rhs.r()) } } }
 impl MulSpecImpl<F> for F {
     open spec fn obeys_mul_spec() -> bool { true }
     open spec fn mul_req(self, rhs: F) -> bool { true }
     open spec fn mul_spec(self, rhs: F) -> F { F { v: Ghost(self.r() * rhs.r()) } }
 }
-impl core::ops::Mul<F> for F { type Output = F; fn mul(self, rhs: F) -> F { F { v: Ghost(self.r() * rhs.r()) } } }
+impl core::ops::Mul<F> for F { type Output = F; #[verifier::external_body] fn mul(self, rhs: F) -> F { F { v: Ghost(self.r() * rhs.r()) } } }
 impl DivSpecImpl<F> for F {
     open spec fn obeys_div_spec() -> bool { true }
     // model R: division is total; x/0 is an unspecified real (as in SMT-LIB)
     open spec fn div_req(self, rhs: F) -> bool { true }
     open spec fn div_spec(self, rhs: F) -> F { F { v: Ghost(self.r() / rhs.r()) } }
 }
-impl core::ops::Div<F> for F { type Output = F; fn div(self, rhs: F) -> F { F { v: Ghost(self.r() / rhs.r()) } } }
+impl core::ops::Div<F> for F { type Output = F; #[verifier::external_body] fn div(self, rhs: F) -> F { F { v: Ghost(self.r() / rhs.r()) } } }
 impl NegSpecImpl for F {
     open spec fn obeys_neg_spec() -> bool { true }
     open spec fn neg_req(self) -> bool { true }
     open spec fn neg_spec(self) -> F { F { v: Ghost(-self.r()) } }
 }
-impl core::ops::Neg for F { type Output = F; fn neg(self) -> F { F { v: Ghost(-self.r()) } } }
+impl core::ops::Neg for F { type Output = F; #[verifier::external_body] fn neg(self) -> F { F { v: Ghost(-self.r()) } } }
 
 impl AddAssignSpecImpl<F> for F {
     open spec fn obeys_add_assign_spec() -> bool { true }
@@ -200,6 +200,8 @@ impl PartialOrdSpecImpl for F {
 }
 impl PartialOrd for F { #[verifier::external_body] fn partial_cmp(&self, o: &F) -> Option<core::cmp::Ordering> { unimplemented!() } }
 
+// (the operator bodies above are external_body: they ARE the definition of model R; Verus could not re-check them once
+// an operator is used inside a trait default method -- the specification is the *SpecImpl next to each)
 // ---- casts (rule R2): `e as f64` -> ToF::to_f(e); `e as <int>` -> CastTo::<int>::cast(e)
 pub trait ToF { spec fn to_f_spec(self) -> real; fn to_f(self) -> (o: F) ensures o.r() == self.to_f_spec(); }
 impl ToF for u64 { open spec fn to_f_spec(self) -> real { i2r(self as int) } fn to_f(self) -> (o: F) { F { v: Ghost(i2r(self as int)) } } }
@@ -236,3 +238,10 @@ impl CastTo<u64> for u32 { open spec fn cast_ok(self, o: u64) -> bool { o == sel
 impl CastTo<i32> for u64 { open spec fn cast_ok(self, o: i32) -> bool { o == self as i32 } fn cast(self) -> (o: i32) { self as i32 } }
 impl CastTo<i32> for i64 { open spec fn cast_ok(self, o: i32) -> bool { o == self as i32 } fn cast(self) -> (o: i32) { self as i32 } }
 impl CastTo<u32> for u64 { open spec fn cast_ok(self, o: u32) -> bool { o == self as u32 } fn cast(self) -> (o: u32) { self as u32 } }
+
+// ---- `f64::NEG_INFINITY` / `f64::INFINITY` (rule R2 turns the type token into `F`): the unspecified
+// reals neg_inf_r() / pos_inf_r() declared above (definitions, no new axiom)
+impl F {
+    pub exec const NEG_INFINITY: F ensures Self::NEG_INFINITY.r() == neg_inf_r() { F { v: Ghost(neg_inf_r()) } }
+    pub exec const INFINITY: F ensures Self::INFINITY.r() == pos_inf_r() { F { v: Ghost(pos_inf_r()) } }
+}
